@@ -6,7 +6,7 @@ distribution in the evidence.  The `avoid` set names ledger entries (known findi
 whose shapes a profile must not produce, e.g. {"F13", "F14", "F23", "F24"}.
 """
 
-OPEN_FINDINGS = {"F13", "F14", "F23", "F24", "F25", "F26", "F27", "F3", "F4", "F5", "F6", "F7"}
+OPEN_FINDINGS = {"F13", "F14", "F39", "F23", "F24", "F25", "F26", "F27", "F3", "F4", "F5", "F6", "F7"}
 
 NUMS = ["0", "1", "2", "3", "7", "10", "255", "0.5", "1.5", "2.25", "100", "1000000", "3.75", "12345.678"]
 STRS = ['""', '"a"', '"ab"', '"héllo"', '"x y"', '"€"', '"😀z"', '"12"', '"3.5"']
@@ -414,6 +414,8 @@ class G:
         has_catch = self.r.chance(3, 4)
         has_finally = (not has_catch) or self.r.chance(1, 2)
         wrap = (not has_catch) or self.r.chance(1, 2)
+        if getattr(self, "force_wrap", 0) > 0:
+            wrap = True       # generated inside a catch block whose try has a finally: nothing may propagate out of it (ledger F14)
         lab = self.fresh("T")
         body = ['print("%s:try");' % lab]
         if wrap:
@@ -426,7 +428,15 @@ class G:
             cb = ['print("%s:catch " + show(e));' % lab]
             if depth > 1 and self.r.chance(1, 3):
                 self.tag("nested-in-catch")
-                cb += self.try_block(depth - 1, in_fn, in_loop)
+                guard = has_finally and "F14" in self.avoid
+                if guard:
+                    self.force_wrap = getattr(self, "force_wrap", 0) + 1
+                try:
+                    # (no return/break/continue out of such a catch block either: ledger F39)
+                    cb += self.try_block(depth - 1, in_fn and not guard, in_loop and not guard)
+                finally:
+                    if guard:
+                        self.force_wrap -= 1
             if self.r.chance(1, 5) and not (has_finally and "F14" in self.avoid):
                 self.tag("rethrow")
                 cb.append("throw e;")
